@@ -149,6 +149,8 @@ def run(ctx):
     try:
         streams = gen_streams(ctx, 400 if q else 6000)
         model = model_delivery(streams)
+        from tools import coqeval
+        coqeval.cross_check(ctx, 'C02', ['frames %s' % (st.hex() or '-') for st in streams if len(st) <= 300][::3], 'frames', limit=80)
         bad = None
         for i, (st, m) in enumerate(zip(streams, model)):
             dialect = ('wows', 'wows126', 'wot', 'wowp')[i % 4]
@@ -193,7 +195,7 @@ def run(ctx):
     finally:
         shutil.rmtree(d, ignore_errors=True)
     # (b) histories (with truncated payloads for mapped handlers) through library and model
-    worldcheck.run_histories(ctx, 'C02', n_defsets=6 if q else 40, hist_per_set=4, sizes=[60, 200], fault_rate=0.15)
+    worldcheck.run_histories(ctx, 'C02', n_defsets=10 if q else 40, hist_per_set=4, sizes=[60, 200], fault_rate=0.15)
     # (c) insertion into real recordings
     from replay_unpack.replay_reader import ReplayReader
     for f in recordings.pick(ctx.tier, 3):
